@@ -61,6 +61,14 @@ def register(m):
     m("C05", "b4-explicit-dimension-relabels-regression", "symplyphysics/core/symbols/quantities.py",
       "            if not dimension_system.is_dimensionless(collected) and not dimension_system.equivalent_dims(\n                    collected, dimension.subs(\"angle\", S.One)):\n                raise ValueError(f\"Dimension of '{expr}' is {dimension_}, but it should be {dimension}\")\n",
       "            pass\n", "S4", note="the genuine defect repaired in 981b32b")
+    SRL = "symplyphysics/docs/symbols_role.py"
+    m("C19", "b4-role-dead-refusal-regression", SRL,
+      "        exported = getattr(symbols, name, None)\n        for directory, collection in _symbols_by_module.items():\n            if name in collection and getattr(getattr(symbols, directory), name) is exported:\n                break\n        else:\n            raise ValueError(f\"Unknown symbol '{name}' in '{path}'.\")\n",
+      "        directory = \"\"\n        for directory, collection in _symbols_by_module.items():\n            if name in collection:\n                break\n        if not directory:\n            raise ValueError(f\"Unknown symbol '{name}' in '{path}'.\")\n",
+      "D8", note="the genuine defects repaired in 3a7d4d3")
+    m("C19", "b4-exec-without-finally-regression", "symplyphysics/docs/parse.py",
+      "    try:\n        exec(compiled, {}, context)  # pylint: disable=exec-used\n    finally:\n        # patched module disables SymPy evaluation, do not leave it disabled if the module fails\n        reset_sympy_evaluation()\n",
+      "    exec(compiled, {}, context)  # pylint: disable=exec-used\n", ("D7", "ERROR"), note="repaired in 9fdd2c0 (the digest anchor of the replica also changes: a refusal is acceptable)")
     # C09 N1: factories hand out fresh systems
     m("C09", "b2-transform-returns-argument", CSYS,
       ") -> CoordinateSystem:\n    new_coord_system = from_system.coord_system.create_new(",
